@@ -218,3 +218,14 @@ PROPS["C06"] = dict(
     assumptions=["in-session read_file is not compared (the statement speaks of the state after close+reopen); in-session find_file is",
                  "a failed operation may leave the file layout changed (rename of an encrypted file flushes first) as long as the map is unchanged"],
 )
+
+PROPS["C07"] = dict(
+    rule="source archives from the C01 generator (V1..V4 cycled, sector shift 0..8, sector CRCs, (attributes) none/crc/full, with (6 in 7) or without (listfile), compressed tables, 1..6+ files incl. encrypted, FIX_KEY, multi-sector, store-raw boundary units) x target version V1..V4 / preserve / modernize x skip_encrypted x skip_signatures x verify x compression override {none, store, zlib, bzip2} x sector-size override x list_only. After rebuild_archive: every selected readable source file is read from the target and compared bit by bit, excluded files must be absent, the summary must count what is in the target, compare_archives(content check) must report no content difference and only excluded names as missing; the model's summary (or the name of the unreadable file in the error) is compared with the implementation's. non-trivial = a rebuilt archive that passed all comparisons; distinct by FNV hash of source+options",
+    trusted_base=COMMON_TB + [
+        "the listing and per-file readability the model is given are those the library's own reader reports for the source (Archive::list / read_file); reader correctness is C01's subject",
+        "the builder that writes the target is C01's subject; the model treats re-adding as a map insert",
+        "a rebuild that errors after extraction (verification refusing a target the reader's ratio limit rejects, C03 finding D2) is counted, not compared",
+    ],
+    assumptions=["'listed files' = what Archive::list returns (names from the (listfile) that resolve); a source without (listfile) has no listed names and rebuild reports an error",
+                 "special files (listfile)/(attributes) are carried as ordinary files; only (listfile)'s presence, not its bytes, is compared"],
+)
